@@ -1,0 +1,22 @@
+//go:build verif
+
+// Contracts for the govc verifier (see /verif/DESIGN.md). Comment-only file.
+package types
+
+//@ # ---------------------------------------------------------------- bit arrays (absence windows, C18)
+//@ # bit(b, i): bit i of the array. ASSUMED: the word-and-mask arithmetic of getIndex/setIndex implements this view for
+//@ # 0 <= i < Bits (variable shifts are outside the modelled integer operations); a nil array has no bits set
+//@ ghost bit(b *BitArray, i int) bool
+//@ func (*BitArray).GetIndex
+//@   trusted
+//@   ensures result <==> (bA != nil && 0 <= i && i < bA.Bits && bit(bA, i))
+//@   modifies nothing
+//@ func (*BitArray).SetIndex
+//@   trusted
+//@   ensures bA != nil && 0 <= i && i < bA.Bits ==> (bit(bA, i) <==> v)
+//@   modifies (bA != nil && 0 <= i && i < bA.Bits) ? bit(bA, i) : nothing
+//@ func NewBitArray
+//@   trusted
+//@   ensures bits > 0 ==> result != nil && fresh(result) && result.Bits == bits && forall i int :: !bit(result, i)
+//@   ensures bits <= 0 ==> result == nil
+//@   modifies nothing
